@@ -52,22 +52,26 @@ struct Model
   int st[3] = { 0, 0, 0 }; // 0 absent, 1 empty, 2 live
   int fn[3] = { -1, -1, -1 };
   int oinc[3] = { 0, 0, 0 };
+  int box[3] = { 0, 0, 0 }; // which sandbox object the registration belongs to: 0 = sb (has a lifecycle), 1 = sb2 (always created)
   int nfill = 0; // fillers registered in incarnation 1
-  std::set<int> R() const
+  // registered functions of sandbox s
+  std::set<int> R(int s = 0) const
   {
     std::set<int> r;
-    if (!created) return r;
+    if (s == 0 && !created) return r;
     for (int i = 0; i < 3; i++)
-      if (st[i] == 2 && oinc[i] == inc) r.insert(fn[i]);
-    if (inc == 1)
+      if (st[i] == 2 && box[i] == s && (s == 1 || oinc[i] == inc)) r.insert(fn[i]);
+    if (s == 0 && inc == 1)
       for (int f = 0; f < nfill; f++) r.insert(3 + f);
     return r;
   }
+  bool stale(int i) const { return st[i] == 2 && box[i] == 0 && oinc[i] != inc; }
 };
 
 struct World
 {
   sbx_t sb;
+  sbx_t sb2; // a second sandbox object of the same type: owners can be moved across
   std::optional<CB> own[3];
   std::vector<CB> fillers;
   Model m;
@@ -95,52 +99,57 @@ static void check_state(World& w, const std::string& kase, const char* opk_in)
   std::string opk_s = std::string(opk_in) + (g_stale_collision ? "(stale-owner-of-reregistered-function)" : "");
   const char* opk = opk_s.c_str();
   auto& m = w.m;
-  if (!m.created) return;
-  auto R = m.R();
   // 1. owners' own view
   for (int i = 0; i < 3; i++) {
     if (!w.own[i]) continue;
-    bool stale = m.st[i] == 2 && m.oinc[i] != m.inc;
-    if (stale) continue; // an owner of an earlier incarnation cannot know; its operations must merely be harmless
+    if (m.stale(i)) continue; // an owner of an earlier incarnation cannot know; its operations must merely be harmless
+    if (m.box[i] == 0 && !m.created) continue;
     bool un = w.own[i]->is_unregistered();
     n_eval++;
     if (un != (m.st[i] != 2)) viol(sig("is_unregistered-mismatch", opk), kase, "owner " + std::to_string(i) + " reports is_unregistered()=" + (un ? "true" : "false") + " but the model says it " + (m.st[i] == 2 ? "owns f" + std::to_string(m.fn[i]) : "owns nothing"));
   }
-  // 2. entry points of live owners: non-null and pairwise distinct
-  std::map<uint64_t, int> eps;
-  for (int i = 0; i < 3; i++) {
-    if (!w.own[i] || m.st[i] != 2 || m.oinc[i] != m.inc) continue;
-    uint64_t ep = (uint64_t)w.own[i]->UNSAFE_sandboxed(w.sb);
+  for (int s = 0; s < 2; s++) {
+    if (s == 0 && !m.created) continue;
+    sbx_t& S = s ? w.sb2 : w.sb;
+    const std::string sn = s ? " (second sandbox)" : "";
+    auto R = m.R(s);
+    auto live_here = [&](int i) { return w.own[i] && m.st[i] == 2 && m.box[i] == s && !m.stale(i); };
+    // 2. entry points of live owners: non-null and pairwise distinct
+    std::map<uint64_t, int> eps;
+    for (int i = 0; i < 3; i++) {
+      if (!live_here(i)) continue;
+      uint64_t ep = (uint64_t)w.own[i]->UNSAFE_sandboxed(S);
+      n_eval++;
+      if (ep == 0) viol(sig("null-entry-point", opk), kase, "live owner " + std::to_string(i) + " (f" + std::to_string(m.fn[i]) + ") reports a null entry point" + sn);
+      else if (eps.count(ep)) viol(sig("shared-entry-point", opk), kase, "owners " + std::to_string(eps[ep]) + " and " + std::to_string(i) + " report the same entry point" + sn);
+      eps[ep] = i;
+    }
+    // 3. what the backend table makes reachable == R
+    std::set<int> reach;
+    for (void* k : slot_keys(S))
+      if (k) reach.insert(fn_index(k));
     n_eval++;
-    if (ep == 0) viol(sig("null-entry-point", opk), kase, "live owner " + std::to_string(i) + " (f" + std::to_string(m.fn[i]) + ") reports a null entry point");
-    else if (eps.count(ep)) viol(sig("shared-entry-point", opk), kase, "owners " + std::to_string(eps[ep]) + " and " + std::to_string(i) + " report the same entry point");
-    eps[ep] = i;
-  }
-  // 3. what the backend table makes reachable == R
-  std::set<int> reach;
-  for (void* k : slot_keys(w.sb))
-    if (k) reach.insert(fn_index(k));
-  n_eval++;
-  if (reach != R) {
-    std::string a, b;
-    for (int x : reach) a += "f" + std::to_string(x) + " ";
-    for (int x : R) b += "f" + std::to_string(x) + " ";
-    bool extra = false;
-    for (int x : reach)
-      if (!R.count(x)) extra = true;
-    viol(sig(extra ? "reachable-without-live-owner" : "owned-but-unreachable", opk), kase, "functions reachable through the backend's entry-point table: {" + a + "} but live registered owners hold {" + b + "}");
-  }
-  // 4. a guest call through each live owner's entry point runs exactly its function
-  for (int i = 0; i < 3; i++) {
-    if (!w.own[i] || m.st[i] != 2 || m.oinc[i] != m.inc) continue;
-    if ((uint64_t)w.own[i]->UNSAFE_sandboxed(w.sb) == 0) continue;
-    if (!reach.count(m.fn[i])) continue; // already reported above; the entry point would jump through an empty slot
-    g_ran.clear();
-    int res = -1;
-    auto o = attempt([&] { res = w.sb.invoke_sandbox_function(call_cb_n, *w.own[i], 7, 1).UNSAFE_unverified(); });
-    n_eval++;
-    if (o != RET || res != 7 + 1000 * m.fn[i] || g_ran.size() != 1 || g_ran[0] != m.fn[i])
-      viol(sig("entry-point-runs-wrong-function", opk), kase, "calling owner " + std::to_string(i) + "'s entry point: expected f" + std::to_string(m.fn[i]) + " exactly once, got result " + std::to_string(res) + " after " + std::to_string(g_ran.size()) + " runs");
+    if (reach != R) {
+      std::string a, b;
+      for (int x : reach) a += "f" + std::to_string(x) + " ";
+      for (int x : R) b += "f" + std::to_string(x) + " ";
+      bool extra = false;
+      for (int x : reach)
+        if (!R.count(x)) extra = true;
+      viol(sig(extra ? "reachable-without-live-owner" : "owned-but-unreachable", opk), kase, "functions reachable through the backend's entry-point table: {" + a + "} but live registered owners hold {" + b + "}" + sn);
+    }
+    // 4. a guest call through each live owner's entry point runs exactly its function
+    for (int i = 0; i < 3; i++) {
+      if (!live_here(i)) continue;
+      if ((uint64_t)w.own[i]->UNSAFE_sandboxed(S) == 0) continue;
+      if (!reach.count(m.fn[i])) continue; // already reported above; the entry point would jump through an empty slot
+      g_ran.clear();
+      int res = -1;
+      auto o = attempt([&] { res = S.invoke_sandbox_function(call_cb_n, *w.own[i], 7, 1).UNSAFE_unverified(); });
+      n_eval++;
+      if (o != RET || res != 7 + 1000 * m.fn[i] || g_ran.size() != 1 || g_ran[0] != m.fn[i])
+        viol(sig("entry-point-runs-wrong-function", opk), kase, "calling owner " + std::to_string(i) + "'s entry point: expected f" + std::to_string(m.fn[i]) + " exactly once, got result " + std::to_string(res) + " after " + std::to_string(g_ran.size()) + " runs" + sn);
+    }
   }
 }
 
@@ -157,7 +166,7 @@ static bool apply(World& w, const Op& op)
   const char* opk = "?";
   g_stale_collision = false;
   auto stale_with = [&](int i, int also_fn) {
-    if (!(m.st[i] == 2 && m.oinc[i] != m.inc && m.created)) return false;
+    if (!(m.stale(i) && m.created)) return false;
     return R.count(m.fn[i]) > 0 || m.fn[i] == also_fn;
   };
   switch (op.k) {
@@ -169,28 +178,35 @@ static bool apply(World& w, const Op& op)
   }
   switch (op.k) {
     case 'r':
+    case 'R':
     case 'e': {
-      opk = op.k == 'r' ? "register-assign" : "register-construct";
+      opk = op.k == 'r' ? "register-assign" : op.k == 'R' ? "register-assign(second sandbox)" : "register-construct";
+      const int s = op.k == 'R';
+      sbx_t& S = s ? w.sb2 : w.sb;
+      if (s) R = m.R(1);
       if (op.k == 'e' && w.own[op.i]) return true;
-      if (op.k == 'r' && !w.own[op.i]) {
+      if (op.k != 'e' && !w.own[op.i]) {
         w.own[op.i].emplace();
         m.st[op.i] = 1;
       }
       bool dup = R.count(op.j), full = R.size() >= kSlots;
       std::optional<CB> fresh;
       auto o = attempt([&] {
-        if (op.k == 'r') *w.own[op.i] = w.sb.register_callback(g_fn[op.j]);
-        else w.own[op.i].emplace(w.sb.register_callback(g_fn[op.j]));
+        if (op.k != 'e') *w.own[op.i] = S.register_callback(g_fn[op.j]);
+        else w.own[op.i].emplace(S.register_callback(g_fn[op.j]));
       });
-      if (!m.created) {
+      if (s == 0 && !m.created) {
         n_nontriv++;
         if (o != ABORT) viol(sig("registered-without-sandbox", opk), kase, "register_callback on a sandbox that is not created did not abort");
         return false;
       }
       if (dup) {
         n_nontriv++;
-        if (o != ABORT) viol(sig("duplicate-accepted", opk), kase, "f" + std::to_string(op.j) + " is already registered by a live owner, second registration did not abort");
-        return false;
+        if (o != ABORT) {
+          viol(sig("duplicate-accepted", opk), kase, "f" + std::to_string(op.j) + " is already registered by a live owner, second registration did not abort");
+          return false;
+        }
+        break; // refused: nothing changed; the history goes on
       }
       if (full) {
         n_nontriv++;
@@ -198,8 +214,9 @@ static bool apply(World& w, const Op& op)
           bool claims = w.own[op.i] && !w.own[op.i]->is_unregistered();
           uint64_t ep = w.own[op.i] ? (uint64_t)w.own[op.i]->UNSAFE_sandboxed(w.sb) : 0;
           viol(sig("refused-registration-looks-registered", opk), kase, "all " + std::to_string(kSlots) + " entry points are in use; register_callback returned an object with is_unregistered()=" + (claims ? "false" : "true") + " and entry point " + std::to_string(ep) + " instead of refusing");
+          return false;
         }
-        return false;
+        break; // refused: nothing changed; the history goes on
       }
       if (o != RET) {
         viol(sig("spurious-abort", opk), kase, "f" + std::to_string(op.j) + " is not registered and the table has room (" + std::to_string(R.size()) + "/" + std::to_string(kSlots) + "), registration aborted");
@@ -208,14 +225,15 @@ static bool apply(World& w, const Op& op)
       release(op.i);
       m.st[op.i] = 2;
       m.fn[op.i] = op.j;
-      m.oinc[op.i] = m.inc;
+      m.oinc[op.i] = s ? 1 : m.inc;
+      m.box[op.i] = s;
       break;
     }
     case 'u':
     case 'd': {
       opk = op.k == 'u' ? "unregister" : "destroy-owner";
       if (!w.own[op.i]) return true;
-      bool stale = m.st[op.i] == 2 && m.oinc[op.i] != m.inc && m.created;
+      bool stale = m.stale(op.i) && m.created;
       auto o = attempt([&] {
         if (op.k == 'u') w.own[op.i]->unregister();
         else w.own[op.i].reset();
@@ -238,6 +256,7 @@ static bool apply(World& w, const Op& op)
       m.st[op.i] = m.st[op.j];
       m.fn[op.i] = m.fn[op.j];
       m.oinc[op.i] = m.oinc[op.j];
+      m.box[op.i] = m.box[op.j];
       m.st[op.j] = 1;
       break;
     }
@@ -252,6 +271,7 @@ static bool apply(World& w, const Op& op)
       m.st[op.i] = m.st[op.j];
       m.fn[op.i] = m.fn[op.j];
       m.oinc[op.i] = m.oinc[op.j];
+      m.box[op.i] = m.box[op.j];
       m.st[op.j] = 1;
       break;
     }
@@ -301,6 +321,7 @@ static bool apply(World& w, const Op& op)
 static bool replay(World& w, int seed, const std::vector<Op>& h)
 {
   bk_create(w.sb, 0, 1);
+  bk_create(w.sb2, 1, 1);
   w.m.created = true;
   w.m.inc = 1;
   w.fillers.reserve(70);
@@ -326,6 +347,10 @@ static void teardown(World& w)
     if (w.m.created) w.sb.destroy_sandbox();
   } catch (...) {
   }
+  try {
+    w.sb2.destroy_sandbox();
+  } catch (...) {
+  }
 }
 
 static std::string state_key(World& w)
@@ -333,8 +358,8 @@ static std::string state_key(World& w)
   auto& m = w.m;
   std::string k = std::to_string(m.created) + "/" + std::to_string(std::min(m.inc, 3)) + "/";
   for (int i = 0; i < 3; i++) {
-    bool stale = m.st[i] == 2 && m.oinc[i] != m.inc;
-    k += std::to_string(m.st[i]) + (m.st[i] == 2 ? ":f" + std::to_string(m.fn[i]) + (stale ? "s" : "") : "") + ";";
+    bool stale = m.stale(i);
+    k += std::to_string(m.st[i]) + (m.st[i] == 2 ? ":f" + std::to_string(m.fn[i]) + (stale ? "s" : "") + (m.box[i] ? "B" : "") : "") + ";";
   }
   // implementation side (finer key only): core key list and backend slot assignment
   k += "|keys=";
@@ -343,6 +368,12 @@ static std::string state_key(World& w)
   auto sk = slot_keys(w.sb);
   for (size_t i = 0; i < sk.size(); i++)
     if (sk[i]) k += std::to_string(i) + ":" + std::to_string(fn_index(sk[i])) + ",";
+  k += "|keys2=";
+  for (void* p : w.sb2.callback_keys) k += std::to_string(fn_index(p)) + ",";
+  k += "|slots2=";
+  auto sk2 = slot_keys(w.sb2);
+  for (size_t i = 0; i < sk2.size(); i++)
+    if (sk2[i]) k += std::to_string(i) + ":" + std::to_string(fn_index(sk2[i])) + ",";
   return k;
 }
 
@@ -351,6 +382,7 @@ static std::vector<Op> alphabet(bool lifecycle)
   std::vector<Op> a;
   for (int i = 0; i < 3; i++) {
     for (int k = 0; k < 3; k++) a.push_back({ 'r', i, k });
+    for (int k = 0; k < 2; k++) a.push_back({ 'R', i, k }); // the same functions registered with the second sandbox
     a.push_back({ 'e', i, (i + 1) % 3 });
     a.push_back({ 'u', i, 0 });
     a.push_back({ 'd', i, 0 });
@@ -381,7 +413,7 @@ static void probes(int seed, const std::vector<Op>& h)
       std::string kase = kase_of(w) + " probe" + std::to_string(k);
       bool stale_owner_of_k = false;
       for (int i = 0; i < 3; i++)
-        if (w.m.st[i] == 2 && w.m.oinc[i] != w.m.inc && w.m.fn[i] == k) stale_owner_of_k = true;
+        if (w.m.stale(i) && w.m.fn[i] == k) stale_owner_of_k = true;
       if (expect_ok && o != RET)
         viol(sig(stale_owner_of_k ? "cannot-register-while-stale-owner-exists" : "cannot-register-free-function", "probe"), kase, "f" + std::to_string(k) + " has no live registered owner in this incarnation and the table has room, but registering it aborted");
       if (!expect_ok && o == RET && !R.count(k) && tmp && !tmp->is_unregistered() && R.size() >= kSlots)
